@@ -543,7 +543,7 @@ def r10(cx):
     m = importlib.import_module("rules.C05")
     ib = len(cx.instances)
     ob0, di0 = cx.obligations, cx.discharged
-    for f in ("r1", "r3", "r4", "r8", "r9", "r10"):
+    for f in ("r1", "r3", "r4", "r8", "r9", "r10", "r11"):
         getattr(m, f)(cx)
     cx.obligations = ob0 + len(cx.instances[ib:])
     cx.discharged = di0 + len([i for i in cx.instances[ib:] if i["verdict"] == "holds"])
